@@ -1321,6 +1321,9 @@ class Interp:
         stub = getattr(self, "stubs", {}).get(fn.get("name")) if this is None else None
         if stub is not None and self.depth > 0:
             return stub(self, args, fr)
+        mstub = getattr(self, "method_stubs", {}).get(fn.get("name")) if this is not None else None
+        if mstub is not None and self.depth > 0:
+            return mstub(self, this, args, fr, node)
         self.depth += 1
         if self.depth > 40:
             raise Unsupported("call depth")
